@@ -209,8 +209,10 @@ Inductive pc :=
 | PWaitLeader              (* owns a flight; the HTTP request is on its way *)
 | PHandled (v : N)         (* the leader's handler has read its committed revision v; reply pending *)
 | PJoined                  (* waiting for another thread's flight *)
-| PGot (v : N)             (* has the fetched revision; about to SetCurrentRevision *)
-| PSet                     (* set done; about to load the read revision and scan *)
+| PGot (v : N)             (* has the fetched revision; about to take the syncer's mutex (installRevision) *)
+| PBlocked (v : N)         (* waiting for the mutex *)
+| PInstalling (v : N)      (* holds the mutex, v is larger than everything installed: inside SetCurrentRevision(v) *)
+| PSet                     (* installRevision returned; about to load the read revision and scan *)
 | PDone.
 
 Record thr := mkThr { t_pc : pc; t_begin : N; t_got : N; t_scan : N; t_joined : bool }.
@@ -219,28 +221,46 @@ Definition thr_init : thr := mkThr PInit 0 0 0 false.
 Record isys := mkI {
   i_leader : N;                      (* the leader's committed revision *)
   i_frev : N;                        (* the follower's committed (= read) revision *)
+  i_synced : N;                      (* revisionSyncer.synced: the largest fetched revision installed so far *)
+  i_mutex : option tid;              (* holder of revisionSyncer.syncMu *)
   i_flight : option tid;             (* owner of the single flight in progress *)
   i_a : thr; i_b : thr;
-  i_sets : list (tid * N * N)        (* (thread, value before, value written), oldest first *)
+  i_sets : list (tid * N * N)        (* SetCurrentRevision calls: (thread, value before, value written), oldest first *)
 }.
 
-Definition i_init (leader frev : N) : isys := mkI leader frev None thr_init thr_init [].
+Definition i_init (leader frev : N) : isys := mkI leader frev 0 None None thr_init thr_init [].
 
 Definition get_thr (s : isys) (t : tid) : thr := match t with TA => i_a s | TB => i_b s end.
 Definition set_thr (s : isys) (t : tid) (x : thr) : isys :=
   match t with
-  | TA => mkI (i_leader s) (i_frev s) (i_flight s) x (i_b s) (i_sets s)
-  | TB => mkI (i_leader s) (i_frev s) (i_flight s) (i_a s) x (i_sets s)
+  | TA => mkI (i_leader s) (i_frev s) (i_synced s) (i_mutex s) (i_flight s) x (i_b s) (i_sets s)
+  | TB => mkI (i_leader s) (i_frev s) (i_synced s) (i_mutex s) (i_flight s) (i_a s) x (i_sets s)
   end.
+Definition set_flight (s : isys) (f : option tid) : isys :=
+  mkI (i_leader s) (i_frev s) (i_synced s) (i_mutex s) f (i_a s) (i_b s) (i_sets s).
+Definition set_mutex (s : isys) (m : option tid) : isys :=
+  mkI (i_leader s) (i_frev s) (i_synced s) m (i_flight s) (i_a s) (i_b s) (i_sets s).
 Definition other (t : tid) : tid := match t with TA => TB | TB => TA end.
+Definition tid_eqb (a b : tid) : bool := match a, b with TA, TA | TB, TB => true | _, _ => false end.
 
 Definition with_pc (x : thr) (p : pc) : thr := mkThr p (t_begin x) (t_got x) (t_scan x) (t_joined x).
 
-(* [monotone]: SetCurrentRevision never lowers the revision (the repair); the code is a plain store.
-   [share]: concurrent fetches share one flight (singleflight, as in the code). *)
-Definition step (monotone share : bool) (s : isys) (l : label) : isys :=
+(* installRevision, first half: take the mutex (or wait for it); under it compare with synced; a revision that
+   is not larger is dropped without touching the backend *)
+Definition arrive_lock (s : isys) (u : tid) (v : N) : isys :=
+  let x := get_thr s u in
+  match i_mutex s with
+  | Some _ => set_thr s u (with_pc x (PBlocked v))
+  | None =>
+      if i_synced s <? v then set_mutex (set_thr s u (with_pc x (PInstalling v))) (Some u)
+      else set_thr s u (with_pc x PSet)
+  end.
+
+(* [share]: concurrent fetches share one flight (singleflight, as in the code).
+   [refetch]: a read that joined a flight started before it arrived fetches again (the repair of C18-F3). *)
+Definition step (refetch share : bool) (s : isys) (l : label) : isys :=
   match l with
-  | LAdv => mkI (i_leader s + 1) (i_frev s) (i_flight s) (i_a s) (i_b s) (i_sets s)
+  | LAdv => mkI (i_leader s + 1) (i_frev s) (i_synced s) (i_mutex s) (i_flight s) (i_a s) (i_b s) (i_sets s)
   | LStep t =>
       let x := get_thr s t in
       match t_pc x with
@@ -250,9 +270,7 @@ Definition step (monotone share : bool) (s : isys) (l : label) : isys :=
           | Some _ =>
               if share then set_thr s t (mkThr PJoined (t_begin x) 0 0 true)
               else set_thr s t (with_pc x PWaitLeader)
-          | None =>
-              let s' := set_thr s t (with_pc x PWaitLeader) in
-              mkI (i_leader s') (i_frev s') (Some t) (i_a s') (i_b s') (i_sets s')
+          | None => set_flight (set_thr s t (with_pc x PWaitLeader)) (Some t)
           end
       | PWaitLeader => set_thr s t (with_pc x (PHandled (i_leader s)))
       | PHandled v =>
@@ -260,19 +278,26 @@ Definition step (monotone share : bool) (s : isys) (l : label) : isys :=
           let s1 := set_thr s t (mkThr (PGot v) (t_begin x) v (t_scan x) (t_joined x)) in
           let y := get_thr s1 (other t) in
           let s2 := match t_pc y with
-                    | PJoined => set_thr s1 (other t) (mkThr (PGot v) (t_begin y) v (t_scan y) (t_joined y))
+                    | PJoined =>
+                        if refetch then set_thr s1 (other t) (mkThr PBegun (t_begin y) 0 0 false)
+                        else set_thr s1 (other t) (mkThr (PGot v) (t_begin y) v (t_scan y) (t_joined y))
                     | _ => s1
                     end in
-          let fl := match i_flight s2 with
-                    | Some o => match o, t with TA, TA | TB, TB => None | _, _ => i_flight s2 end
-                    | None => None
-                    end in
-          mkI (i_leader s2) (i_frev s2) fl (i_a s2) (i_b s2) (i_sets s2)
+          match i_flight s2 with
+          | Some o => if tid_eqb o t then set_flight s2 None else s2
+          | None => s2
+          end
       | PJoined => s                                   (* blocked in singleflight.Do *)
-      | PGot v =>
-          let nv := if monotone then N.max (i_frev s) v else v in
-          let s' := set_thr s t (with_pc x PSet) in
-          mkI (i_leader s') nv (i_flight s') (i_a s') (i_b s') (i_sets s' ++ [(t, i_frev s, v)])
+      | PGot v => arrive_lock s t v
+      | PBlocked _ => s                                (* blocked on the mutex *)
+      | PInstalling v =>
+          (* second half: synced = v, SetCurrentRevision(v), unlock; a waiting thread gets the mutex *)
+          let s1 := set_thr s t (with_pc x PSet) in
+          let s2 := mkI (i_leader s1) v v None (i_flight s1) (i_a s1) (i_b s1) (i_sets s1 ++ [(t, i_frev s, v)]) in
+          match t_pc (get_thr s2 (other t)) with
+          | PBlocked v' => arrive_lock s2 (other t) v'
+          | _ => s2
+          end
       | PSet => set_thr s t (mkThr PDone (t_begin x) (t_got x) (i_frev s) (t_joined x))
       | PDone => s
       end
@@ -281,18 +306,19 @@ Definition step (monotone share : bool) (s : isys) (l : label) : isys :=
 Definition enabled (s : isys) (l : label) : bool :=
   match l with
   | LAdv => true
-  | LStep t => match t_pc (get_thr s t) with PJoined | PDone => false | _ => true end
+  | LStep t => match t_pc (get_thr s t) with PJoined | PBlocked _ | PDone => false | _ => true end
   end.
 
-Definition run (monotone share : bool) (s : isys) (ls : list label) : isys := fold_left (step monotone share) ls s.
+Definition run (refetch share : bool) (s : isys) (ls : list label) : isys := fold_left (step refetch share) ls s.
 
-(* the code as it is *)
-Definition run_code := run false true.
+(* the code as it is: shared flights; a read that joined a flight started before it arrived fetches again *)
+Definition run_code := run true true.
 
 Definition thr_fresh (x : thr) : bool :=
   match t_pc x with PDone => t_begin x <=? t_scan x | _ => true end.
 Definition fresh (s : isys) : bool := thr_fresh (i_a s) && thr_fresh (i_b s).
 
-(* finding signatures on a run: a set lowered the follower's revision; a read joined a flight *)
+(* on a run: a SetCurrentRevision lowered the follower's revision (cannot happen any more once the first
+   fetched revision is installed); a read joined a flight (finding C18-F3) *)
 Definition lowering_set (s : isys) : bool := existsb (fun x => match x with (_, before, v) => v <? before end) (i_sets s).
 Definition some_joined (s : isys) : bool := t_joined (i_a s) || t_joined (i_b s).
